@@ -342,7 +342,7 @@ Definition expected_catalogue : list wrapper := [
 (* ---- clause-building calls, exactly the methods the harness calls on the pypika object ---- *)
 Inductive op :=
 | ODistinct                                          (* .distinct() *)
-| OFilter (cs : list string)                         (* .filter(c1, c2, ...) *)
+| OFilter (cs : list (option string))                (* .filter(c1, c2, ...) ; None = an EmptyCriterion argument *)
 | OOver (ts : list string)                           (* .over(t1, ...) *)
 | OOrderby (ts : list string) (o : option order)     (* .orderby(t1, ..., order=o) *)
 | OFrame (k : fkind) (b : bound) (ab : option bound) (* .rows(b[, ab]) / .range(b[, ab]) *)
@@ -354,6 +354,9 @@ Definition upd (fd : func_desc) (special : option string) (distinct : bool) (fil
      fd_distinct := distinct; fd_filters := filters; fd_include_filter := inc_f; fd_partition := partition;
      fd_orderbys := orderbys; fd_include_over := inc_o; fd_frame := fd_frame fd; fd_bare := fd_bare fd |}.
 
+Fixpoint somes {A} (l : list (option A)) : list A :=
+  match l with [] => [] | Some x :: r => x :: somes r | None :: r => somes r end.
+
 (* a method the class does not have: AttributeError *)
 Definition apply_op (w : wrapper) (fd : func_desc) (o : op) : res func_desc :=
   let same sp d fs fi ps os oi := Ok (upd fd sp d fs fi ps os oi) in
@@ -362,7 +365,13 @@ Definition apply_op (w : wrapper) (fd : func_desc) (o : op) : res func_desc :=
       if w_distinct w then same (fd_special fd) true (fd_filters fd) (fd_include_filter fd) (fd_partition fd) (fd_orderbys fd) (fd_include_over fd)
       else Err "AttributeError"
   | OFilter cs =>
-      if w_agg w then same (fd_special fd) (fd_distinct fd) (fd_filters fd ++ cs)%list true (fd_partition fd) (fd_orderbys fd) (fd_include_over fd)
+      (* filter(): EmptyCriterion arguments are dropped; with nothing left the call is a no-op; otherwise
+         _include_filter is set and the remaining criteria are appended *)
+      if w_agg w then
+        match somes cs with
+        | [] => Ok fd
+        | cs' => same (fd_special fd) (fd_distinct fd) (fd_filters fd ++ cs')%list true (fd_partition fd) (fd_orderbys fd) (fd_include_over fd)
+        end
       else Err "AttributeError"
   | OOver ts =>
       if w_analytic w then same (fd_special fd) (fd_distinct fd) (fd_filters fd) (fd_include_filter fd) (fd_partition fd ++ ts)%list (fd_orderbys fd) true
